@@ -77,6 +77,10 @@ def run(rep, tier, replay):
              dict(name="compress-seq", args=["-1", "-n", "3", "--sequential"], input=plain),
              dict(name="decompress", args=["-d", "-n", "2"], input=comp),
              dict(name="copy", args=["-cdf"], input=text)]
+    # legal short reads / writes (harness/preload_io.c, deterministic per seed): several calls per buffer
+    scens += [dict(name="compress-short", args=["-1", "-n", "2"], input=plain[:60000], env={"VERIF_IO_SEED": "5"}),
+              dict(name="decompress-short", args=["-d", "-n", "2"], input=bz2.compress(plain[:40000], 1), env={"VERIF_IO_SEED": "6"}),
+              dict(name="copy-short", args=["-cdf"], input=text[:150000], env={"VERIF_IO_SEED": "7"})]
     if tier == "thorough":
         scens += [dict(name="compress-n8", args=["-1", "-n", "8"], input=plain * 3),
                   dict(name="decompress-n5", args=["-d", "-n", "5"], input=comp * 4),
@@ -88,6 +92,7 @@ def run(rep, tier, replay):
             os.unlink(log)
         # small I/O granularity gives many call positions
         env0 = {"LD_PRELOAD": shim, "VERIF_IN_GRANUL": "16384", "VERIF_OUT_GRANUL": "8192"}
+        env0.update(scen.get("env", {}))
         scen["file"] = os.path.join(vlib.subdir("c21"), "stdin_" + scen["name"])
         with open(scen["file"], "wb") as f:
             f.write(scen["input"])
